@@ -108,6 +108,8 @@ func runC04(p *core.Prog, r *core.Report) {
 	c04R12(p, r)
 	// an interrupted copy is followed by a Close with the cancelled context: what was in the layout stays complete (shared with C08.R9)
 	c08R9(p, r, "C04.R13")
+	// 'the target already has this child' is answered per repository: the response cache is keyed by the whole reference (shared with C10.R2)
+	c10R2(p, r, "C04.R14")
 }
 
 // resolveLit returns the function literal a go statement runs: a literal, or a local variable
